@@ -137,6 +137,12 @@ def opMV (C : Ctx) (name : String) (args : List String) : Option String := do
   | "jpow", [n, a] => some (showMV (C.jPow (← parseMV a) (← n.toNat?)))
   | "jcall", [gs, a] => some (showMV (C.jCall (← parseNats gs) (← parseMV a)))
   | "sdiv", [a, q] => some (showMV (C.sdiv (← parseMV a) (← parseRat q)))
+  | "exp", [eps, n, a] => some (showMV (C.expSeries (← parseRat eps) (← n.toNat?) (← parseMV a)))
+  | "sin", [n, a] => some (showMV (C.oddSeries true (← n.toNat?) (← parseMV a)))
+  | "sinh", [n, a] => some (showMV (C.oddSeries false (← n.toNat?) (← parseMV a)))
+  | "cos", [n, a] => some (showMV (C.evenSeries true (← n.toNat?) (← parseMV a)))
+  | "cosh", [n, a] => some (showMV (C.evenSeries false (← n.toNat?) (← parseMV a)))
+  | "expscale", [a] => some (toString (Ctx.expScale (Ctx.maxAbsFloor (← parseMV a))))
   | "revsigns", [] => some (showInts C.revSigns.toList)
   | "gisigns", [] => some (showInts C.giSigns.toList)
   | "lcompsigns", [] => some (showInts C.leftCompSigns.toList)
